@@ -112,6 +112,12 @@ def gen(tier, seed):
         yield {'kind': 'sp', 'dirs': [P[k] for k in s], 'names': N}
     for nm in tilde_names(root):
         yield {'kind': 'tilde', 'name': nm}
+    # "~" is the home of the *effective* user
+    others = [p for p in pwd.getpwall() if p.pw_uid not in (0, os.geteuid()) and p.pw_dir != HOME][:3]
+    if os.geteuid() == 0:
+        for p_ in others:
+            for nm in ('~', '~/x', '~/'):
+                yield {'kind': 'tilde', 'name': nm, 'euid': p_.pw_uid}
     rng = core.seeded_rng(seed, 'c17')
     for _ in range(200 if tier == 'quick' else 5000):
         n = rng.randint(3, 6)
@@ -124,6 +130,9 @@ GEN_ROOT = [None]
 def script(spec):
     lines, sid = schema.emit_schema(DECLS)
     L = list(lines)
+    if spec['kind'] == 'tilde' and spec.get('euid') is not None:
+        L += ['seteuid %d' % spec['euid'], 'tilde %s' % hx(spec['name']), 'seteuid 0']
+        return '\n'.join(L)
     if spec['kind'] == 'tilde':
         L.append('tilde %s' % hx(spec['name']))
         # without a search path, cfg_parse and include resolve by tilde expansion only
@@ -149,6 +158,10 @@ def script(spec):
                 L += ['init 1 %d 0' % sid]
                 L += ['add_searchpath 1 %s' % hx(d) for d in spec['dirs']]
                 L += ['parse_buf 1 %s' % hx(wrap % nm), 'get 1 int %s 0' % hx(path), 'free 1']
+            # the sections are opened by an earlier parse while the search path is still shorter
+            L += ['init 1 %d 0' % sid, 'add_searchpath 1 %s' % hx(spec['dirs'][0]), 'parse_fp 1 %s' % hx('one { i = -2 deep { i = -2 } }\n')]      # (parse_fp: this preparatory parse is not one of the judged lookups)
+            L += ['add_searchpath 1 %s' % hx(d) for d in spec['dirs'][1:]]
+            L += ['parse_buf 1 %s' % hx('one { deep { include("%s") } }\n' % nm), 'get 1 int %s 0' % hx('one|deep|i'), 'free 1']
     return '\n'.join(L)
 
 
@@ -158,6 +171,19 @@ def judge(spec, events, death):
     if death is not None:
         what = 'tilde:' + ('user' if spec.get('name', '')[1:2] not in ('', '/') else 'self') if spec['kind'] == 'tilde' else 'searchpath'
         v.bad('memory:%s@%s:%s' % (death['kind'], death['where'], what), '%r: %s' % (spec.get('name', spec.get('dirs')), death['text'][-700:]))
+        return v
+    if spec['kind'] == 'tilde' and spec.get('euid') is not None:
+        p = [e for e in events if e.get('ev') == 'path']
+        rs = [e for e in events if e.get('ev') == 'r' and e.get('op') == 'seteuid']
+        if not rs or rs[0]['rc'] != 0:
+            v.skipped = True        # cannot change the effective uid here (not root)
+            return v
+        home = pwd.getpwuid(spec['euid']).pw_dir
+        want = home + spec['name'][1:]
+        v.nontrivial = True
+        v.notes['tilde_forms'] = 1
+        if not p or unhx(p[0]['v']) != want:
+            v.bad('tilde:wrong:effective-uid', 'with effective uid %d cfg_tilde_expand(%r) = %r, expected the home of that account: %r' % (spec['euid'], spec['name'], unhx(p[0]['v']) if p else None, want))
         return v
     if spec['kind'] == 'tilde':
         p = [e for e in events if e.get('ev') == 'path']
